@@ -389,7 +389,30 @@ fn build_set(ch: &mut Choices<'_>, p: Params) -> SetModel {
     // xor chains over the leaves above (the same comparisons occur in several filters)
     let x1 = MExpr::Comb { op: LOp::Xor, items: vec![c1.clone(), i1.clone(), rx1.clone()] };
     let x2 = MExpr::Comb { op: LOp::Xor, items: vec![l1.clone(), MExpr::Not(Box::new(w1.clone())), i2.clone()] };
+    // the contains needles themselves become field values of two contexts (value == pattern)
+    let needles: Vec<Vec<u8>> = [&c1, &c2]
+        .iter()
+        .filter_map(|e| if let MExpr::Cmp { op: MOp::Contains(b), .. } = e { Some(b.v.clone()) } else { None })
+        .collect();
+    // long flat chains (10 operands over one field): which operand decides differs per context
+    let mut long_chain = |op: LOp, cmp: OrdOp| -> MExpr {
+        let k = gen_.ch.draw(1000) as i64;
+        let items: Vec<MExpr> = (0..10i64)
+            .map(|i| {
+                let v = k + i * 3;
+                gen_.hints.ints.push(v);
+                leaf(&n0, vec![], MOp::Ord(cmp, MLit::Int(IntLit::dec(v))))
+            })
+            .collect();
+        MExpr::Comb { op, items }
+    };
+    let lo = long_chain(LOp::Or, OrdOp::Eq);
+    let la = long_chain(LOp::And, OrdOp::Ne);
+    let lx = long_chain(LOp::Xor, OrdOp::Ge);
     for (e, o) in [
+        (lo, "t:long-or"),
+        (la, "t:long-and"),
+        (lx, "t:long-xor"),
         (rx1, "t:regex"),
         (rx2, "t:regex"),
         (c1, "t:contains"),
@@ -430,6 +453,13 @@ fn build_set(ch: &mut Choices<'_>, p: Params) -> SetModel {
     }
     let lists = g::gen_lists(gen_.ch, &recipe, &hints);
     let mut ctxs: Vec<MCtx> = (0..p.nctx).map(|_| g::gen_ctx(gen_.ch, &recipe, &hints)).collect();
+    if let Some((bi, _)) = recipe.field(&b0) {
+        for (k, n) in needles.iter().enumerate() {
+            if let Some(c) = ctxs.get_mut(2 * k) {
+                c.vals[bi] = Some(MVal::Bytes(n.clone()));
+            }
+        }
+    }
     // every other context carries a long (>= 80 bytes) value in the shared bytes
     // field, different per context (per-filter caches keyed on large inputs)
     if let Some((bi, _)) = recipe.field(&b0) {
